@@ -319,7 +319,8 @@ pub fn gen_config(r: &mut Rng) -> ConfigSpec {
         // (a huge step limit is a legitimate way to run for ever: not generated)
         c.eval_push_limit = *r.pick(&[i32::MIN, i32::MIN + 1, -2]);
     }
-    c.new_erc_name_probability = (*r.pick(&[0.0f32, 0.001, 0.001, 0.5, 1.0])).to_bits();
+    // a probability is a float like any other: out of range, infinite and NaN values are configurations too
+    c.new_erc_name_probability = (*r.pick(&[0.0f32, 0.001, 0.001, 0.5, 1.0, 1.0001, 5.0, -0.001, f32::NAN, f32::INFINITY])).to_bits();
     c.max_points_in_random_expressions = *r.pick(&[0, 1, 2, 3, 25, 25, 25, -25, 100, 200]);
     c.max_points_in_program = *r.pick(&[100, 100, 10, 1000]);
     c
